@@ -257,6 +257,17 @@ pub fn register(m: &mut HashMap<&'static str, OpFn>) {
             hex({ let mut t = ep; t -= q; t }.compress().as_bytes()),
             hex((&ep + &q).compress().as_bytes()),
             hex((&ep - &q).compress().as_bytes()),
+            // the remaining owned / borrowed mixed forms, and sums of subgroup points over iterators with inexact size hints
+            hex((&ep - q).compress().as_bytes()),
+            hex((ep - &q).compress().as_bytes()),
+            hex((&ep + q).compress().as_bytes()),
+            hex((ep + &q).compress().as_bytes()),
+            e([p, q].iter().filter(|_| true).sum::<SubgroupPoint>()),
+            e([p, q].into_iter().sum::<SubgroupPoint>()),
+            e({
+                let mut it = [p, q].into_iter();
+                std::iter::from_fn(|| it.next()).sum::<SubgroupPoint>()
+            }),
         ]
     });
     m.insert("gp.rs_ops", |a| {
